@@ -1,9 +1,116 @@
 import OdcGeo.Model.C01
 namespace OdcGeo.C01.Drv
-open OdcGeo OdcGeo.IO
+open OdcGeo OdcGeo.IO OdcGeo.C01
+
+/-- `N` or `objId:epsg:str:cls` -/
+def parseTag? (s : String) : Option Tag :=
+  if s = "N" then some none
+  else match s.splitOn ":" with
+    | [a, b, c, d] =>
+      match a.toNat?, b.toNat?, c.toNat?, d.toNat? with
+      | some a, some b, some c, some d => some (some ⟨a, b, c, d⟩)
+      | _, _, _, _ => none
+    | _ => none
+
+def fmtTag : Tag → String
+  | none => "N"
+  | some c => s!"{c.objId}:{c.epsg}:{c.str}:{c.cls}"
+
+def fmtErr : Err → String
+  | .crsMismatch => "ERR:CRSMismatch"
+  | .valueError => "ERR:ValueError"
+  | .assertion => "ERR:AssertionError"
+  | .typeError => "ERR:TypeError"
+  | .keyError => "ERR:KeyError"
+  | .other n => s!"ERR:Other{n}"
+
+def fmtOutTag : Option Tag → String
+  | none => "-"
+  | some t => fmtTag t
+
+/-- symbolic delegate: operands are their indices, results are expressions that the harness
+evaluates with shapely / the CRS-stripped real operation -/
+def symD : Delegate Nat String where
+  call := fun _ ss => .ok ("call[" ++ ";".intercalate (ss.map toString) ++ "]")
+  init := fun _ s => s!"init[{s}]"
+  step := fun _ a s => .ok s!"step[{a};{s}]"
+  stepT := fun _ a s => s!"stepT[{a};{s}]"
+  pix := fun _ s r => .ok s!"pix[{s};{r}]"
+  fin := fun _ r bs => .ok ("fin[" ++ ";".intercalate (toString r :: bs) ++ "]")
+
+def indexed (ts : List Tag) : List (Obj Nat) :=
+  (ts.zipIdx).map (fun (t, i) => ⟨t, i⟩)
+
+def fmtOut : Except Err (Out String) → String
+  | .error e => fmtErr e
+  | .ok .nothing => "NONE"
+  | .ok (.val t r) => s!"OK tag={fmtOutTag t} {r}"
+
+def walkStr : Walk → String
+  | .guardFirst false => "guard"
+  | .guardFirst true => "guardrev"
+  | .reduce => "reduce"
+  | .foldCheckInside => "fold"
+  | .pixelEach => "pixel"
+
+def specStr (o : OpSpec) : String :=
+  let ar := match o.arity with | .two => "2" | .many => "n"
+  let rt := match o.resTag with | .first => "first" | .untagged => "untagged"
+  s!"{o.name}|{walkStr o.walk}|{ar}|{rt}|{fmtErr o.mismatchErr}"
+
+def parseBBox? (s : String) : Option BBox :=
+  match s.splitOn ";" with
+  | [a, b, c, d] =>
+    match parseRat? a, parseRat? b, parseRat? c, parseRat? d with
+    | some a, some b, some c, some d => some ⟨a, b, c, d⟩
+    | _, _, _, _ => none
+  | _ => none
+
+def fmtBBoxOut : Except Err (Out BBox) → String
+  | .error e => fmtErr e
+  | .ok .nothing => "NONE"
+  | .ok (.val t b) => s!"OK tag={fmtOutTag t} {fmtRat b.l} {fmtRat b.b} {fmtRat b.r} {fmtRat b.t}"
+
+def pathStr : ConvPath → String
+  | .same => "same" | .converted => "converted" | .pixelPlane => "pixel"
 
 def run (args : List String) : Option String :=
   match args with
+  | ["ops"] => some (",".intercalate (opTable.map specStr))
+  | ["allops"] =>
+    let names := (opTable.map (·.name)) ++ convTable ++ eqTable
+    some (",".intercalate (names.toArray.qsort (· < ·)).toList)
+  | ["convops"] => some (",".intercalate convTable)
+  | ["eqops"] => some (",".intercalate eqTable)
+  | ["tageq", a, b] => do
+    let a ← parseTag? a; let b ← parseTag? b
+    pure (fmtBool (tagEq a b))
+  | ["tagne", a, b] => do
+    let a ← parseTag? a; let b ← parseTag? b
+    pure (fmtBool (tagNe a b))
+  | ["run", name, tags] => do
+    let ts ← parseList? parseTag? tags
+    let op ← findOp name
+    pure (fmtOut (C01.run op symD (indexed ts)))
+  | ["bbox", which, tags, boxes] => do
+    let ts ← parseList? parseTag? tags
+    let bs ← parseList? parseBBox? boxes
+    if ts.length ≠ bs.length then none
+    else
+      let xs : List (Obj BBox) := (ts.zip bs).map (fun (t, b) => ⟨t, b⟩)
+      if which = "union" then pure (fmtBBoxOut (bboxUnion xs))
+      else if which = "inter" then pure (fmtBBoxOut (bboxIntersection xs))
+      else none
+  | ["conv", name, isBBox, self, other] => do
+    let isB ← parseBool? isBBox
+    let self ← parseTag? self; let other ← parseTag? other
+    let r ← convRun name isB self other
+    match r with
+    | .error e => pure (fmtErr e)
+    | .ok o => pure s!"OK path={pathStr o.path} tag={fmtOutTag o.tag}"
+  | ["eq", a, b, raw] => do
+    let a ← parseTag? a; let b ← parseTag? b; let raw ← parseBool? raw
+    pure (fmtBool (eqRun a b raw))
   | _ => none
 
 end OdcGeo.C01.Drv
